@@ -38,6 +38,40 @@ def positions_signature(fp, chunks, lazy):
     return out
 
 
+PROBE = r"""
+import sys, json, numpy as np
+sys.path.insert(0, sys.argv[1]); sys.path.insert(0, sys.argv[2])
+import abtem
+from vf.ms import small_atoms, displaced_configurations
+out = {}
+for d in ("xyz", "xy", "z", "yz"):
+    fp = abtem.FrozenPhonons(small_atoms(nz=2), num_configs=2, sigmas=0.1, seed=(7, 11), directions=d)
+    out[d] = [np.asarray(a.positions).round(12).tolist() for a in displaced_configurations(fp)]
+print(json.dumps(out))
+"""
+
+
+def cross_process_event():
+    """the displaced configurations for fixed seeds, computed in interpreter processes with different string-hash seeds"""
+    import os, subprocess, sys
+    ev = {"e": "Result", "kind": "c02", "raised": False, "members_ppb": [], "mean_ppb": 0, "positions_same": True, "shape_ok": True,
+          "cross_process": True}
+    try:
+        outs = []
+        for hs in ("0", "1", "2", "3"):
+            env = dict(os.environ, PYTHONHASHSEED=hs)
+            p = subprocess.run([sys.executable, "-c", PROBE, os.environ.get("ABTEM_REPO", "/repo"), os.path.join(os.path.dirname(__file__), "..", "..")],
+                               env=env, capture_output=True, text=True, timeout=300)
+            if p.returncode != 0:
+                raise RuntimeError(p.stderr[-300:])
+            outs.append(json.loads(p.stdout.strip().splitlines()[-1]))
+        ev["positions_same"] = all(o == outs[0] for o in outs[1:])
+    except Exception as ex:
+        ev["raised"] = True
+        ev["exc"] = f"{type(ex).__name__}: {ex}"[:300]
+    return [ev]
+
+
 def run_case(c, kind, builder, detector, mean, rng):
     import abtem
     n, k = c["n"], c["ncfg"]
@@ -115,6 +149,9 @@ def run(ctx: Ctx):
         meta = {"case": c, "kind": kind, "builder": builder, "detector": det, "mean": mean}
         items.append((meta, t))
         ctx.case(json.dumps(meta), nontrivial=c["ncfg"] > 1)
+    xp_meta = {"case": {"n": 2, "ncfg": 2, "spec": ["none"], "planes": [1]}, "kind": "cross_process", "builder": "-", "detector": "-", "mean": False}
+    items.append((xp_meta, cross_process_event()))
+    ctx.case("cross-process configurations (PYTHONHASHSEED 0..3)")
     for meta, t in items[:1] + items[-1:]:
         ctx.sample({"meta": meta, "trace": t})
     _judge(ctx, items)
